@@ -292,6 +292,7 @@ impl<'a> GeneralCheck<'a> {
                 &mut created,
                 &mut used,
                 left_rec,
+                &mut None,
             );
             for (num, span) in created {
                 if !used.contains(num) {
@@ -651,9 +652,19 @@ impl<'a> GeneralCheck<'a> {
         created: &mut FxHashMap<&'a str, Span>,
         used: &mut FxHashSet<&'a str>,
         left_rec: bool,
+        attempt: Option<usize>,
     ) {
         let mut branch_open = open.clone();
-        Self::check_node_creation(cst, regex, diags, &mut branch_open, created, used, left_rec);
+        Self::check_node_creation(
+            cst,
+            regex,
+            diags,
+            &mut branch_open,
+            created,
+            used,
+            left_rec,
+            &mut attempt.clone(),
+        );
         open.retain(|num| branch_open.contains(num));
     }
     /// Checks the body of a repetition. A node creation in one iteration also
@@ -667,6 +678,7 @@ impl<'a> GeneralCheck<'a> {
         created: &mut FxHashMap<&'a str, Span>,
         used: &mut FxHashSet<&'a str>,
         left_rec: bool,
+        attempt: Option<usize>,
     ) {
         Self::check_node_creation_branch(
             cst,
@@ -676,8 +688,9 @@ impl<'a> GeneralCheck<'a> {
             &mut created.clone(),
             &mut used.clone(),
             left_rec,
+            attempt,
         );
-        Self::check_node_creation_branch(cst, regex, diags, open, created, used, left_rec);
+        Self::check_node_creation_branch(cst, regex, diags, open, created, used, left_rec, attempt);
     }
     fn check_node_creation(
         cst: &'a Cst<'_>,
@@ -687,18 +700,35 @@ impl<'a> GeneralCheck<'a> {
         created: &mut FxHashMap<&'a str, Span>,
         used: &mut FxHashSet<&'a str>,
         left_rec: bool,
+        // number of markers that were visited before the ordered choice alternative,
+        // which is currently tried and can still be abandoned, was entered
+        attempt: &mut Option<usize>,
     ) {
         match regex {
-            Regex::OrderedChoice(regex) => regex.operands(cst).for_each(|op| {
-                Self::check_node_creation_branch(cst, op, diags, open, created, used, left_rec)
-            }),
+            Regex::OrderedChoice(regex) => {
+                let count = regex.operands(cst).count();
+                for (i, op) in regex.operands(cst).enumerate() {
+                    let attempt = if i + 1 < count {
+                        attempt.or(Some(open.len()))
+                    } else {
+                        *attempt
+                    };
+                    Self::check_node_creation_branch(
+                        cst, op, diags, open, created, used, left_rec, attempt,
+                    );
+                }
+            }
             Regex::Alternation(regex) => regex.operands(cst).for_each(|op| {
-                Self::check_node_creation_branch(cst, op, diags, open, created, used, left_rec)
+                Self::check_node_creation_branch(
+                    cst, op, diags, open, created, used, left_rec, *attempt,
+                )
             }),
             Regex::Concat(regex) => {
                 let old_open = open.clone();
                 for op in regex.operands(cst) {
-                    Self::check_node_creation(cst, op, diags, open, created, used, left_rec);
+                    Self::check_node_creation(
+                        cst, op, diags, open, created, used, left_rec, attempt,
+                    );
                 }
                 // markers defined in the concatenation go out of scope,
                 // markers invalidated by a node creation stay invalid
@@ -706,22 +736,30 @@ impl<'a> GeneralCheck<'a> {
             }
             Regex::Paren(regex) => {
                 if let Some(op) = regex.inner(cst) {
-                    Self::check_node_creation_branch(cst, op, diags, open, created, used, left_rec)
+                    Self::check_node_creation_branch(
+                        cst, op, diags, open, created, used, left_rec, *attempt,
+                    )
                 }
             }
             Regex::Optional(regex) => {
                 if let Some(op) = regex.operand(cst) {
-                    Self::check_node_creation_branch(cst, op, diags, open, created, used, left_rec)
+                    Self::check_node_creation_branch(
+                        cst, op, diags, open, created, used, left_rec, *attempt,
+                    )
                 }
             }
             Regex::Star(regex) => {
                 if let Some(op) = regex.operand(cst) {
-                    Self::check_node_creation_loop(cst, op, diags, open, created, used, left_rec)
+                    Self::check_node_creation_loop(
+                        cst, op, diags, open, created, used, left_rec, *attempt,
+                    )
                 }
             }
             Regex::Plus(regex) => {
                 if let Some(op) = regex.operand(cst) {
-                    Self::check_node_creation_loop(cst, op, diags, open, created, used, left_rec)
+                    Self::check_node_creation_loop(
+                        cst, op, diags, open, created, used, left_rec, *attempt,
+                    )
                 }
             }
             Regex::NodeMarker(regex) => {
@@ -739,6 +777,9 @@ impl<'a> GeneralCheck<'a> {
                 if let Some(num) = regex.number(cst) {
                     used.insert(num);
                     if let Some(pos) = open.iter().position(|open_num| *open_num == num) {
+                        if attempt.is_some_and(|outer| pos < outer) {
+                            diags.push(Diagnostic::create_node_in_ordered_choice(&span));
+                        }
                         // the inserted node shifts every node behind the marker, so
                         // markers that were visited after it must not be used anymore
                         open.truncate(pos + 1);
@@ -749,8 +790,15 @@ impl<'a> GeneralCheck<'a> {
                     }
                 } else if left_rec {
                     diags.push(Diagnostic::create_rule_node_left_rec(&span));
+                } else {
+                    if attempt.is_some() {
+                        diags.push(Diagnostic::create_node_in_ordered_choice(&span));
+                    }
+                    // the node is inserted at the start of the rule
+                    open.clear();
                 }
             }
+            Regex::Commit(_) => *attempt = None,
             Regex::Name(_)
             | Regex::Symbol(_)
             | Regex::Predicate(_)
@@ -758,7 +806,6 @@ impl<'a> GeneralCheck<'a> {
             | Regex::Assertion(_)
             | Regex::NodeRename(_)
             | Regex::NodeElision(_)
-            | Regex::Commit(_)
             | Regex::Return(_) => {}
         };
     }
